@@ -60,6 +60,8 @@ def step (_ : Unit) (j : Json) : Except String (Unit × Drv.Out) := do
     let k ← strF e "k"
     let sidI ← intF e "sid"
     let sid := sidI.toNat
+    if k == "stalled" then
+      o := o.mon "promReality" "prom.stalled" s!"event {idx}: session {sid} did not complete a step within 10 s: the middleware stopped passing messages"
     let stOpt : Option PStep ← (do
       match k with
       | "start" => pure (some (PStep.start sid))
